@@ -57,7 +57,7 @@ const keyAlphabet = "aAbZz09%-_./: \xc3\xa9\x80~"
 
 func genIdent(r *rand.Rand, wild bool) *Ident {
 	id := &Ident{Groups: []string{}, Extra: []Extra{}}
-	name := pick(r, namePool, edgeNames, 12)
+	name := pick(r, namePool, edgeNames, 25)
 	if wild && r.Intn(10) == 0 {
 		name = rig.Pick(r, invalidNames)
 	}
@@ -66,7 +66,7 @@ func genIdent(r *rand.Rand, wild bool) *Ident {
 	}
 	id.Name = rig.Hex(name)
 	for i, n := 0, r.Intn(5); i < n; i++ {
-		g := pick(r, groupPool, edgeGroups, 15)
+		g := pick(r, groupPool, edgeGroups, 30)
 		if wild && r.Intn(25) == 0 {
 			g = rig.Pick(r, invalidNames)
 		}
@@ -84,7 +84,7 @@ func genIdent(r *rand.Rand, wild bool) *Ident {
 		seen[k] = true
 		e := Extra{K: rig.Hex(k), V: []string{}}
 		for j, m := 0, r.Intn(4); j < m; j++ {
-			v := pick(r, valuePool, edgeValues, 25)
+			v := pick(r, valuePool, edgeValues, 40)
 			if wild && r.Intn(40) == 0 {
 				v = rig.Pick(r, invalidNames)
 			}
@@ -141,7 +141,7 @@ func genLine(r *rand.Rand) Line {
 		n, v = "Authorization", rig.Pick(r, []string{"Bearer client-token", "", "Basic Y2xpZW50OnB3", "Bearer gateway-token", "bearer x"})
 	case k < 7:
 		n = "Impersonate-User"
-		v = pick(r, namePool, []string{"", "", " "}, 6)
+		v = pick(r, namePool, []string{"", "", " "}, 15)
 	case k < 10:
 		n = "Impersonate-Group"
 		v = pick(r, groupPool, []string{"", " "}, 10)
@@ -180,12 +180,9 @@ func genCase(c *rig.Ctx, i int) Case {
 	if r.Intn(60) == 0 {
 		cs.User = nil
 	}
-	nl := r.Intn(8)
-	if r.Intn(6) == 0 {
-		nl = 0
-	}
-	for j := 0; j < nl; j++ {
-		l := genLine(r)
+	// scenario: which lines of the impersonation family the client sends
+	scenario := r.Intn(20)
+	addLine := func(l Line) {
 		cs.Client = append(cs.Client, l)
 		if r.Intn(8) == 0 { // duplicate, maybe in another casing, maybe with another value
 			d := Line{rig.Hex(randomCase(r, rig.UnHex(l.N))), l.V}
@@ -195,6 +192,55 @@ func genCase(c *rig.Ctx, i int) Case {
 			cs.Client = append(cs.Client, d)
 		}
 	}
+	family := func(kind int) Line { // 0 user, 1 group, 2 extra, 3 other Impersonate-*, 4 Authorization, 5 near miss
+		for {
+			l := genLine(r)
+			n := strings.ToLower(rig.UnHex(l.N))
+			k := 5
+			switch {
+			case n == "impersonate-user":
+				k = 0
+			case n == "impersonate-group":
+				k = 1
+			case strings.HasPrefix(n, "impersonate-extra-"):
+				k = 2
+			case strings.HasPrefix(n, "impersonate-"):
+				k = 3
+			case n == "authorization":
+				k = 4
+			}
+			if k == kind {
+				return l
+			}
+		}
+	}
+	switch {
+	case scenario < 2: // no client line at all
+	case scenario < 6: // no impersonation requested: credentials, strays of the family, near misses
+		for j, n := 0, 1+r.Intn(4); j < n; j++ {
+			addLine(family(rig.Pick(r, []int{3, 3, 4, 4, 5})))
+		}
+	case scenario < 15: // an impersonation with a user
+		addLine(family(0))
+		for j, n := 0, r.Intn(3); j < n; j++ {
+			addLine(family(1))
+		}
+		for j, n := 0, r.Intn(3); j < n; j++ {
+			addLine(family(2))
+		}
+		for j, n := 0, r.Intn(3); j < n; j++ {
+			addLine(family(rig.Pick(r, []int{3, 4, 5})))
+		}
+	case scenario < 17: // groups / extras without a user
+		for j, n := 0, 1+r.Intn(3); j < n; j++ {
+			addLine(family(rig.Pick(r, []int{1, 2, 2, 3, 4})))
+		}
+	default: // anything
+		for j, n := 0, r.Intn(8); j < n; j++ {
+			addLine(genLine(r))
+		}
+	}
+	r.Shuffle(len(cs.Client), func(a, b int) { cs.Client[a], cs.Client[b] = cs.Client[b], cs.Client[a] })
 	if wild && r.Intn(3) == 0 {
 		cs.Client = append(cs.Client, rig.Pick(r, malformedLines))
 		r.Shuffle(len(cs.Client), func(a, b int) { cs.Client[a], cs.Client[b] = cs.Client[b], cs.Client[a] })
@@ -233,6 +279,16 @@ func escapeSweep(c *rig.Ctx) {
 		keys = append(keys, randBytes(c.Rng, keyAlphabet+"\x00\x7f\xff()<>@,;\\\"[]?={}", 8))
 	}
 	for _, k := range keys {
+		if c.NFailures() >= 5 {
+			break
+		}
+		sweepKey(c, k)
+	}
+}
+
+// sweepKey checks one extra key (also the replay entry point for a case of the form {"key": hex}).
+func sweepKey(c *rig.Ctx, k string) {
+	for once := true; once; once = false {
 		esc := gwtransport.VerifHeaderKeyEscape(k)
 		header := http.CanonicalHeaderKey("Impersonate-Extra-" + esc)
 		valid := httpguts.ValidHeaderFieldName(header)
@@ -255,10 +311,24 @@ func escapeSweep(c *rig.Ctx) {
 				What: fmt.Sprintf("headerKeyEscape(%q) = %q: valid header name=%v, PathUnescape gives %q err=%v", k, esc, valid, un, uerr)})
 			continue
 		}
-		if dec != string(lower) {
-			c.Fail(rig.Failure{Kind: "judge", Class: "c02.escape-decode", Case: cs,
-				What: fmt.Sprintf("extra key %q is sent as %q, which a kube-apiserver decodes as %q (expected the key up to ASCII case)", k, header, dec)})
-			continue
+		if dec != k {
+			// the property wants the key itself; losing exactly the ASCII case is the recorded limitation
+			class := "c02.escape-decode"
+			if dec == string(lower) {
+				class = "c02.extra-key-case"
+				c.Count("known:sweep:" + class)
+				if reported["sweep:"+class] {
+					class = ""
+				}
+				reported["sweep:"+class] = true
+			}
+			if class != "" {
+				c.Fail(rig.Failure{Kind: "judge", Class: class, Case: cs,
+					What: fmt.Sprintf("extra key %q is sent as %q, which a kube-apiserver decodes as %q", k, header, dec)})
+			}
+			if dec != string(lower) {
+				continue
+			}
 		}
 		var m struct {
 			Escaped, Header, Decoded string
